@@ -122,6 +122,7 @@ def cases(plan, tier, shard, nshards, host):
         yield {"kind": "tables"}
     if shard == 1 % nshards:
         yield {"kind": "warm"}
+        yield {"kind": "traceback"}
     for pid, src in G.enumerate_programs(sys.version_info[:2], 1):
         n += 1
         if n % nshards == shard:
@@ -348,6 +349,35 @@ def run_case(case, ctx):
                 a, b = sorted(x for x in a if x < 256), sorted(x for x in b if x < 256)
             if a != b:
                 ctx.violation("%s:table:%s" % (htag, name), "xdis.std.%s != opcode.%s (%s vs %s)" % (name, name, str(a)[:80], str(b)[:80]))
+        return
+    if case["kind"] == "traceback":
+        # Bytecode.from_traceback / distb: the frame the exception was raised in, for tracebacks 1 to 4 frames deep
+        ns = {"__name__": "tbk"}
+        exec(compile("def lvl(n, d):\n    x = [n, d]\n    if n == 0:\n        return x[d] / 0\n    return lvl(n - 1, d) + 1\n", "<tbk>", "exec"), ns)
+        for depth in (0, 1, 2, 3):
+            ctx.count("tracebacks")
+            try:
+                ns["lvl"](depth, 0)
+            except ZeroDivisionError:
+                tb = sys.exc_info()[2].tb_next      # first frame of lvl
+            try:
+                ref = dis.Bytecode.from_traceback(tb)
+                got = X.Bytecode.from_traceback(tb)
+                if got.codeobj is not ref.codeobj:
+                    ctx.violation("%s:from_traceback:code-object" % htag, "depth %d: xdis picks %s, dis %s" % (depth + 1, got.codeobj.co_name, ref.codeobj.co_name))
+                if got.current_offset != ref.current_offset:
+                    ctx.violation("%s:from_traceback:current_offset" % htag, "depth %d: current_offset %r, dis %r" % (depth + 1, got.current_offset, ref.current_offset))
+                ri = [(i.offset, i.opname, i.arg) for i in ref if i.opname != "CACHE"]
+                gi = [(i.offset, i.opname, i.arg) for i in got if i.opname != "CACHE"]
+                if ri != gi:
+                    ctx.violation("%s:from_traceback:stream" % htag, "depth %d: instruction streams differ" % (depth + 1))
+                # the listing marks the current instruction with -->
+                txt = got.dis()
+                marked = [ln for ln in txt.splitlines() if "-->" in ln]
+                if len(marked) != 1 or (" %d " % ref.current_offset) not in marked[0]:
+                    ctx.violation("%s:from_traceback:marker" % htag, "depth %d: '-->' lines %r, current offset %d" % (depth + 1, marked[:2], ref.current_offset))
+            except Exception as e:
+                ctx.violation("%s:from_traceback:raises:%s" % (htag, type(e).__name__), "depth %d: %r" % (depth + 1, e))
         return
     if case["kind"] == "warm":
         ns = {"__name__": "warm"}
